@@ -272,6 +272,12 @@ impl<A: LoadableAsset + SeekableAsset> TapeImpl for Tap<A> {
         self.delay = 0;
         self.asset.seek(SeekFrom::Start(0))?;
         self.tape_ended = false;
+        // Waveform generation restarts from the first block too: forget the
+        // position inside the old waveform, both when playing and when stopped
+        if self.state != TapeState::Stop {
+            self.state = TapeState::Play;
+        }
+        self.prev_state = TapeState::Stop;
         Ok(())
     }
 }
